@@ -88,7 +88,10 @@ def rule_r2_validated_is_stored(ck, prog, cls='trace::TraceState', rule='C14.R2'
         bad = None
         n_ok = 0
         for p in adds:
-            k, v = strip_casts(f, p.n['args'][0]), strip_casts(f, p.n['args'][1])
+            def the_var(a):
+                refs = [f.nodes[j] for j in f.subtree(a) if f.nodes[j]['k'] == 'ref' and f.nodes[j].get('sk') in ('local', 'param')]
+                return refs[0] if len({r['id'] for r in refs}) == 1 else {'k': '?'}
+            k, v = the_var(p.n['args'][0]), the_var(p.n['args'][1])
             if k['k'] != 'ref' or v['k'] != 'ref':
                 continue
             if not g.must_pass_edge(p, _valid_edge('IsValidKey', True, k['id'])):
